@@ -19,6 +19,7 @@ operator, `and` under positive / `or` under negative polarity splits.
 from __future__ import annotations
 
 import ast
+import re
 import copy
 from dataclasses import dataclass, field
 from typing import Set, Dict, Iterable, List, Optional, Sequence, Tuple
@@ -256,12 +257,16 @@ class FuncFacts:
     def _find_const_flags(fn) -> Dict[str, List[Tuple[bool, ast.stmt]]]:
         """local names whose EVERY binding is a literal True / False (flags set in branches): name -> [(value, statement)]."""
         defs: Dict[str, List] = {}
+        copies: Dict[str, List[str]] = {}
         bad: Set[str] = set()
 
         def note(t, v, st):
             if isinstance(t, ast.Name):
                 if isinstance(v, ast.Constant) and isinstance(v.value, bool):
                     defs.setdefault(t.id, []).append((v.value, st))
+                elif isinstance(v, ast.Name):
+                    copies.setdefault(t.id, []).append(v.id)     # a plain copy of another (possibly literal) flag
+                    defs.setdefault(t.id, [])
                 else:
                     bad.add(t.id)
             elif isinstance(t, (ast.Tuple, ast.List)):
@@ -298,7 +303,33 @@ class FuncFacts:
         a = fn.args
         for x in a.posonlyargs + a.args + a.kwonlyargs:
             bad.add(x.arg)
-        return {k: v for k, v in defs.items() if k not in bad}
+        # copies: a name is a literal flag if all its bindings are literals or copies of literal flags (one level per round)
+        changed = True
+        while changed:
+            changed = False
+            for k, srcs in copies.items():
+                if k in bad:
+                    continue
+                if any(src in bad or src not in defs for src in srcs):
+                    bad.add(k)
+                    changed = True
+        out = {}
+        for k, v in defs.items():
+            if k in bad:
+                continue
+            sites = list(v)
+            seen = {k}
+            todo = list(copies.get(k, []))
+            while todo:
+                src = todo.pop()
+                if src in seen:
+                    continue
+                seen.add(src)
+                sites += defs.get(src, [])
+                todo += copies.get(src, [])
+            if sites:
+                out[k] = sites
+        return out
 
     # -- helpers ------------------------------------------------------------
     def at(self, stmt: ast.stmt) -> StmtInfo:
@@ -570,9 +601,12 @@ class FuncFacts:
                 for st in sites:
                     fs = [f for f in self.info[id(st)].facts]
                     common = fs if common is None else [f for f in common if f in fs]
+                # the opaque atom about the literal itself is replaced by what it stands for, plus a marker naming the flag
+                out = [a for a in out if not (a[0] in ("truthy", "falsy") and a[2] is None and re.fullmatch(r"(?:__phi__\()?(?:True|False)(?:, (?:True|False))*\)?", a[1]))]
                 for f in common or []:
                     if f not in out:
                         out.append(f)
+                out.append(("flag", t.id, str(pos)))
         return out
 
 
